@@ -10,9 +10,9 @@ REPO = os.environ.get('VERIF_REPO', '/repo')
 PY = shutil.which('python3-vt') or sys.executable
 OUT = os.path.join(ROOT, 'out')
 
-def compile_tu(src, std, exc, defs, tag):
+def compile_tu(src, std, exc, defs, tag, extra=()):
     os.makedirs(os.path.join(OUT, 'll'), exist_ok=True)
-    key = hashlib.sha1(repr((src, std, exc, sorted(defs), tag)).encode()).hexdigest()[:10]
+    key = hashlib.sha1(repr((src, std, exc, sorted(defs), tag, tuple(extra))).encode()).hexdigest()[:10]
     base = os.path.join(OUT, 'll', '%s_%s' % (os.path.splitext(os.path.basename(src))[0], key))
     ll = base + '.ll'; dep = base + '.d'
     cmd = ['clang++-14', '-std=' + std, '-O1', '-fno-vectorize', '-fno-slp-vectorize', '-fno-unroll-loops',
@@ -27,6 +27,20 @@ def compile_tu(src, std, exc, defs, tag):
     p = subprocess.run(cmd, capture_output=True, text=True)
     if p.returncode != 0:
         return dict(ok=False, err=p.stderr[-3000:], cmd=' '.join(cmd))
+    if extra:
+        parts = [ll]
+        for k, e in enumerate(extra):
+            el = base + '.x%d.ll' % k
+            c2 = [x for x in cmd]
+            i = c2.index(os.path.join(ROOT, 'harness', src)); c2[i] = e.replace('$REPO', REPO)
+            c2[c2.index('-o') + 1] = el; c2[c2.index('-MF') + 1] = base + '.x%d.d' % k
+            p2 = subprocess.run(c2, capture_output=True, text=True)
+            if p2.returncode != 0: return dict(ok=False, err=p2.stderr[-3000:], cmd=' '.join(c2))
+            parts.append(el)
+        linked = base + '.linked.ll'
+        p3 = subprocess.run(['llvm-link-14', '-S', '-o', linked] + parts, capture_output=True, text=True)
+        if p3.returncode != 0: return dict(ok=False, err=p3.stderr[-3000:], cmd='llvm-link')
+        ll = linked
     txt = open(ll, 'rb').read()
     deps = []
     try:
@@ -54,8 +68,8 @@ def main():
     # ---- compile
     tus = {}
     for h in hs:
-        k = (h['src'], h.get('std', 'c++17'), bool(h.get('exc')), tuple(h.get('defs', [])))
-        if k not in tus: tus[k] = compile_tu(k[0], k[1], k[2], list(k[3]), pid)
+        k = (h['src'], h.get('std', 'c++17'), bool(h.get('exc')), tuple(h.get('defs', [])), tuple(h.get('extra', [])))
+        if k not in tus: tus[k] = compile_tu(k[0], k[1], k[2], list(k[3]), pid, k[4])
         h['_tu'] = tus[k]
     # ---- run
     jobs_per = 1
@@ -95,13 +109,14 @@ def main():
     known = load_known()
     viol_lines = []; known_lines = []; inconc = []
     nq = 0; ndis = 0; solver_s = 0.0; samples = []; states = 0; trans = 0; wrep = 0
-    funcs = {}; hsum = []
+    funcs = {}; hsum = []; allfiles = set()
     for h in hs:
         r = results[h['name']]; v = r.get('verdict', 'inconclusive')
         ent = dict(harness=h['name'], src=h['src'], threads=h.get('threads', []), K=h.get('K', 0), preempt=h.get('preempt'),
                    verdict=v, wall_s=round(r.get('wall_s', 0), 1), notes=r.get('notes', []), desc=h.get('desc', ''))
         if h['_tu'].get('ok'):
-            ent.update(ir_sha256=h['_tu']['sha256'], ir_lines=h['_tu']['lines'], repo_files=h['_tu']['repo_files'])
+            ent.update(ir_sha256=h['_tu']['sha256'][:16], ir_lines=h['_tu']['lines'])
+            allfiles.update(h['_tu']['repo_files'])
         if 'stats' in r:
             ent['stats'] = r['stats']; states += r['stats'].get('merges', 0) + r['stats'].get('forks', 0) + 1; trans += r['stats'].get('ins', 0)
         ent['queries'] = [dict(name=q['name'], result=q['result'], expect=q['expect'], solver_s=q['solver_s'], sites=q.get('sites')) for q in r.get('queries', [])]
@@ -138,11 +153,14 @@ def main():
               coverage=dict(states=max(states, 1), transitions=max(trans, 1), traces_validated_against_impl=wrep,
                             samples=samples or [dict(note='no witness sample (all harnesses inconclusive)')],
                             obligations=nq, discharged=ndis, solver_s=round(solver_s, 1),
+                            evaluations=nq, distinct_nontrivial=len([h for h in hsum if h.get('stats', {}).get('ins', 0) > 0]),
+                            programs=len(set(h['desc'].split(' under ')[0].split(':')[0] for h in hsum)), disagreements_checked=len(hsum),
+                            checker_cmd='python3 check.py %s --tier %s' % (pid, tier), trusted_base=['clang++-14 front end', 'IRSYM interpreter (validated by concrete replays)', 'z3 QF_FD'],
                             explanation=P.get('explanation', ''),
-                            rule='states = guarded symbolic control states created (forks+merges) over all steps of all harnesses; transitions = IR instruction instances executed symbolically; traces_validated = witness models re-executed concretely through the IR interpreter',
+                            rule='evaluations = solver queries discharged; distinct_nontrivial = harness configurations whose formula was built from a non-empty symbolic execution; states = guarded symbolic control states created (forks+merges) over all steps of all harnesses; transitions = IR instruction instances executed symbolically; traces_validated = witness models re-executed concretely through the IR interpreter',
                             exhaustive=False,
                             bounds=P.get('bounds', ''), outside_claim=P.get('outside', ''),
-                            harnesses=hsum,
+                            harnesses=hsum, repo_files_read=sorted(allfiles),
                             functions_encoded=[dict(fn=fn, ins=n) for fn, n in sorted(funcs.items(), key=lambda x: -x[1])[:60]],
                             n_functions_encoded=len(funcs),
                             inconclusive=inconc),
